@@ -10,7 +10,9 @@ CFG = cfg('C07', extract='Ex_C07', driver='c07',
                'RFC fingerprints of exported key packets = private key fingerprints = twin fingerprints, identities and exportable signatures equal, '
                'bytes(key.pubkey) = model export(pubkey_of) built from the private key\'s FIELDS (and bytes(key) = model export), literal search for '
                'every secret integer >= 16 octets (big/little endian, also while unlocked) and for the encrypted secret blob; sign / certify / revoke / '
-               'revoker / bind / decrypt on derived, loaded (binary, armored), subkey, locked, unlocked objects vs the model decision table; '
+               'revoker / bind / decrypt on derived, loaded (binary, armored), subkey, locked, unlocked objects and on public / private primary keys WITHOUT user id '
+               '(twin derived before any add_uid, bare public-key packet loaded from bytes; add_uid too: PGPError required) vs the model decision table; '
+               'private keys loaded with non-default ECDH KDF parameters (twin must carry them); '
                'protect / unlock on public objects are warned no-ops. distinct = distinct (suite, key, stage, export hash)',
           trusted=['Spec/Rfc4880_keys.v (RFC 4880 12.2 fingerprint used on exported key packets)',
                    'hashlib SHA-1 (primitive oracle)'],
@@ -20,7 +22,7 @@ CFG = cfg('C07', extract='Ex_C07', driver='c07',
                        'modelled as list order; weak references between a key and its twin (propagation of later additions) are reached through the '
                        'correspondence run only',
                        'heap residue / garbage collection of secret integers is outside the model',
-                       'source text of PrivKeyV4.pubkey, PGPKey.pubkey, PGPKey.__bytearray__, KeyAction.check_attributes and the KeyAction arguments '
+                       'source text of PrivKeyV4.pubkey, PGPKey.pubkey, PGPKey.__bytearray__, KeyAction.check_attributes, KeyAction.__call__ and the KeyAction arguments '
                        'of the seven operations are pinned'])
 
 TEXT = ('Rocq theorems (Props/C07.v, closed under the global context): the public packet body is the first 6+publen octets of the secret body; '
